@@ -723,19 +723,23 @@ def rule_verbatim(ctx):
     rule = "verbatim"
     facts = ctx.facts
     ctx.rule(rule, "format_verbatim copies source[annotation_end .. inner_start] and source[inner_start .. inner_end] (contiguous, nothing "
-                   "re-rendered); the annotation's end is the FIRST `]` after its start (a format directive contains none, the gap "
-                   "may); every PrettyFormatter derived from another (scoped) inherits its source text")
+                   "re-rendered); the annotation's end is the FIRST `]` TOKEN after its start, found with the comment-aware lexical scan (a format "
+                   "directive contains none; comments may contain the character); every PrettyFormatter derived from another (scoped) inherits its source text")
     fn = FORMATTER + "format_verbatim"
     h = ctx.need_hir(rule, fn)
     loc = facts.bodies()[fn]["loc"]
     env = A.ArmEnv(); env.strip = True; env.bind_params(h); env.absorb(h["body"])
     names = [n["name"] for n in H.walk(h["body"]) if H.kind(n) == "MethodCall"]
-    ctx.check("find" in names and "rfind" not in names, rule, "annotation-end", "format_verbatim locates the end of the annotation with %s: "
-              "a `]` inside a comment between the annotation and its payload cuts the copied text" %
-              [x for x in names if x in ("find", "rfind", "rfind_map", "rsplit", "split")], loc, detail={"search": "find(']')"})
+    finds = [A.sexpr(n, env) for n in H.walk(h["body"]) if H.kind(n) == "MethodCall" and n["name"] == "find"]
+    token_based = any("LexicalTokens" in f_ and "LexicalTokenKind::Punctuation" in f_ and " ]" in f_ for f_ in finds)
+    ctx.check("find" in names and "rfind" not in names and token_based, rule, "annotation-end", "format_verbatim locates the end of the "
+              "annotation with %s%s: the end is the first `]` TOKEN of the comment-aware lexical scan; a `]` character inside a comment "
+              "before, inside or after the brackets (`@ /- ] -/ [format(verbatim)] x`) cuts the copied text and the output does not parse"
+              % ([x for x in names if x in ("find", "rfind", "rfind_map", "rsplit", "split")], "" if token_based else " on the text"),
+              loc, detail={"search": "LexicalTokens .. find(Punctuation `]`)"})
     gets = [A.sexpr(n["args"][0], env) for n in H.walk(h["body"]) if H.kind(n) == "MethodCall" and n["name"] == "get"]
-    rng = [_range(g) for g in gets]
-    ok = len(rng) == 3 and all(r is not None for r in rng) and rng[1][1] == rng[2][0] and rng[0][1] == rng[2][0]
+    rng = [r for r in (_range(g) for g in gets) if r is not None]
+    ok = len(rng) == 3 and rng[1][1] == rng[2][0] and rng[0][1] == rng[2][0]
     ctx.check(ok, rule, "contiguous", "format_verbatim's copied slices are %s: boundary and payload must be adjacent ranges of the source "
               "(.. inner_start)(inner_start ..)" % [g[:100] for g in gets], loc, detail={"slices": len(gets)})
     # scoped() keeps the source
